@@ -5,6 +5,7 @@
  * Runs on the ASan build: ownership (double free / use after free / leak) is part of the property. */
 #include "../fw/explore.h"
 #include "../fw/hx.h"
+#include "../fw/cfgmodel.h"
 #include "include/bidib.h"
 #include <stdio.h>
 #include <stdlib.h>
@@ -270,7 +271,50 @@ static void own_child(const void *job, size_t n) {
 	res_finish();
 }
 static size_t ownall_gen(long idx, uint8_t *payload, char *human, size_t hn) { payload[0] = (uint8_t) (0x80 + idx * 32); payload[1] = 32; snprintf(human, hn, "uplink types %02x..%02x, one after the other (default schedule)", payload[0], payload[0] + 31); return 2; }
-void c06_register(void) { harness_register("c06.own", own_child); harness_register("c06.route", route_child); harness_register("c06.queue", queue_child); harness_register("c06.sched", sched_child); }
+/* ---------------------------------------------------------------- c06.vendor: the one destination that depends on the CONFIGURATION
+ * README: MSG_VENDOR goes to the message queue unless it reports the state of a configured reverser.  "Of a configured reverser"
+ * means: the sender is a connected board that owns a reverser with that CV name.  Normal mode, standard model with the reverser on
+ * the interface board or on oc1; oc1 present / absent from the start / lost after start-up / lost and lc1 logged in at oc1's
+ * address; a vendor report from each of three addresses with the CV name and with another name. */
+static cm_model_t VM;
+static void vendor_child(const void *job, size_t n) {
+	vs_dev_t devs[VS_MAXDEV]; int nd; size_t pl; const uint8_t *p = job_parse(job, n, devs, &nd, &pl);
+	int owner = p[0] % 2, status = p[0] / 2;     /* status 0 present, 1 absent, 2 lost, 3 lost + lc1 takes the address */
+	hx_child_begin(NULL, 0, 0, NULL, 0, 0);
+	cm_std(&VM);
+	if (owner == 1) { VM.b[1].nrev = 1; VM.b[1].rev[0] = VM.b[0].rev[0]; VM.b[0].nrev = 0; }
+	if (status == 1) VM.b[1].present = 0;
+	if (status == 3) VM.b[2].present = 0;
+	cm_install(&VM);
+	if (hx_start_normal(0)) res_infra("normal start failed");
+	hx_quiesce(); vs_sleep_us(2500000); hx_quiesce();
+	uint8_t d[9];
+	if (status >= 2) { int nodeidx = VM.b[1].sbnode; SB.n[nodeidx].present = 0; d[0] = ++SB.n[0].tab_version; d[1] = VM.b[1].local; memcpy(d + 2, VM.b[1].uid, 7); sb_send(0, MSG_NODE_LOST, d, 9); vs_point(); hx_quiesce(); VM.b[1].present = 0; }
+	if (status == 3) { VM.b[2].local = VM.b[1].local; VM.b[2].present = 1; VM.b[2].sbnode = sb_add_node(0, VM.b[2].local, VM.b[2].uid); d[0] = ++SB.n[0].tab_version; d[1] = VM.b[2].local; memcpy(d + 2, VM.b[2].uid, 7); sb_send(0, MSG_NODE_NEW, d, 9); vs_point(); hx_quiesce(); }
+	uint8_t *m; while ((m = bidib_read_message())) free(m); while ((m = bidib_read_error_message())) free(m); while ((m = bidib_read_intern_message())) free(m);
+	static const uint8_t ADDR[3][4] = {{0, 0, 0, 0}, {1, 0, 0, 0}, {2, 0, 0, 0}};
+	static const char *ST[4] = {"oc1 present", "oc1 absent", "oc1 lost", "oc1 lost, lc1 logged in at its address"};
+	long cases = 0;
+	for (int a = 0; a < 3; a++) for (int nm = 0; nm < 2; nm++) {
+		const char *name = nm ? "30099" : VM.b[owner].rev[0].cv; uint8_t v[16]; int vl = 0; v[vl++] = (uint8_t) strlen(name); memcpy(v + vl, name, strlen(name)); vl += (int) strlen(name); v[vl++] = 1; v[vl++] = '1';
+		/* which connected board sits at this address now? */
+		int sender = -1; for (int b = 0; b < VM.nb; b++) if (cm_board_connected(&VM, b)) { uint8_t ba[4]; cm_board_addr(&VM, b, ba); if (!memcmp(ba, ADDR[a], 4)) sender = b; }
+		int consumed = sender >= 0 && VM.b[sender].nrev > 0 && !nm && !strcmp(VM.b[sender].rev[0].cv, name);
+		uint8_t msg[40]; int ml = rc_build_msg(msg, ADDR[a], 0, MSG_VENDOR, v, vl);
+		sb_send_from(ADDR[a], 0, MSG_VENDOR, v, vl); vs_point(); hx_quiesce();
+		hx_emit_san_events("c06.vendor");
+		int s1, s2, s3; int nq = drain_count(bidib_read_message, msg, ml, &s1), ne = drain_count(bidib_read_error_message, msg, ml, &s2), ni = drain_count(bidib_read_intern_message, msg, ml, &s3);
+		char what[220]; snprintf(what, sizeof what, "reverser on %s, %s: MSG_VENDOR name %s from %02x.%02x.%02x (%s)", VM.b[owner].id, ST[status], name, ADDR[a][0], ADDR[a][1], ADDR[a][2], sender >= 0 ? VM.b[sender].id : "no connected board");
+		if (nq + ne + ni > 1) res_violation("routed-more-than-once: a received message appears in several places", "%s: message-queue %d, error-queue %d, internal-queue %d", what, nq, ne, ni);
+		else if (consumed && (nq || ne || ni)) res_violation("wrong-destination type=93 expected=state-tracking: the state report of a configured reverser was queued", "%s", what);
+		else if (!consumed && !(nq == 1 && s1)) res_violation("wrong-destination type=93 expected=message-queue: a vendor report that is not the state of a configured reverser of its sender did not reach the message queue unchanged", "%s: message-queue %d, error-queue %d", what, nq, ne);
+		cases++;
+	}
+	res_printf("O %x %x\nC vendor_cases %ld\n", owner, status, cases);
+	res_finish();
+}
+static size_t vendor_gen(long idx, uint8_t *payload, char *human, size_t hn) { payload[0] = (uint8_t) idx; snprintf(human, hn, "reverser on %s, oc1 status %ld", idx % 2 ? "oc1" : "master", idx / 2); return 1; }
+void c06_register(void) { harness_register("c06.vendor", vendor_child); harness_register("c06.own", own_child); harness_register("c06.route", route_child); harness_register("c06.queue", queue_child); harness_register("c06.sched", sched_child); }
 int c06_run(const char *tier) {
 	int thorough = !strcmp(tier, "thorough"); q_depth = thorough ? 5 : 3;
 	long execs = 0, states = 0, transitions = 0; int exhaustive = 1;
@@ -278,6 +322,8 @@ int c06_run(const char *tier) {
 	if (tsan) goto own_only;        /* the ThreadSanitizer build runs the ownership harness only */
 	ex_spec_t r = { .harness = "c06.route", .ncases = (route_count() + ROUTE_BATCH - 1) / ROUTE_BATCH, .gen = route_gen, .label = "c06.route" };
 	ex_map(&r); execs += r.done; states += r.distinct_outcomes; transitions += route_count(); if (!r.exhaustive) exhaustive = 0;
+	ex_spec_t vd = { .harness = "c06.vendor", .ncases = 8, .gen = vendor_gen, .label = "c06.vendor" };
+	{ ex_map(&vd); execs += vd.done; if (!vd.exhaustive) exhaustive = 0; rep_note("c06.vendor: %ld configuration / connectivity variants, %ld vendor reports routed", vd.done, rep_get("vendor_cases")); }
 	ex_spec_t q = { .harness = "c06.queue", .ncases = queue_count(), .gen = queue_gen, .label = "c06.queue" };
 	ex_map(&q); execs += q.done; states += q.distinct_outcomes; transitions += q.done; if (!q.exhaustive) exhaustive = 0;
 	e1_spec_t s = { .harness = "c06.sched", .param = "", .nparam = 0, .bound = thorough ? 3 : 2, .label = "c06.sched two readers vs receiver" };
